@@ -107,6 +107,15 @@ fn make_project(rng: &mut Rng) -> Project {
         "import * as nsa from \"./a\";\nimport { B as Bee } from \"./b\";\nexport const P = parse.buildParsers<{ X: nsa.A; Y: Bee[] }>();\n",
         "import type { A } from \"./a\";\nexport * from \"./b\";\nexport const P = parse.buildParsers<{ X: A | null }>();\n",
         "import { A } from \"@app/a\";\nimport { B } from \"@app/b\";\nexport const P = parse.buildParsers<{ X: A; Y: B | null }>();\n",
+        // through a barrel module that only passes names on with `export *`
+        "import { A, B } from \"./all\";\nexport const P = parse.buildParsers<{ X: A; Y: B }>();\n",
+        "import * as all from \"./all\";\nexport const P = parse.buildParsers<{ X: all.A; Y: all.B[] }>();\n",
+        "import { B } from \"./all\";\nimport { A } from \"./a\";\nexport const P = parse.buildParsers<{ X: A; Y: B }>();\n",
+    ];
+    let all_valid = vec![
+        "export * from \"./a\";\nexport * from \"./b\";\n",
+        "export * from \"./b\";\nexport * from \"./a\";\n",
+        "export * from \"./b\";\nexport type A = { a: \"declared in the barrel\" };\n",
     ];
     let a_valid = vec![
         "export type A = { a: string };\n",
@@ -117,6 +126,8 @@ fn make_project(rng: &mut Rng) -> Project {
         "import { C } from \"@app/c\";\nexport type A = { c: C; viaAlias: true };\n",
         "import type { C } from \"@app/lib/c\";\nexport type A = { list: C[]; viaAlias: 1 };\n",
         "export type A = \"x\" | \"y\";\nexport type Extra = 1;\n",
+        // a name moves between the targets of the barrel
+        "export type A = { a: string };\nexport type B = { moved: \"into a\" };\n",
         // the same declaration under two doc comments (descriptions are part of the emitted code)
         "/** first wording */\nexport type A = { /** field doc */ a: string };\n",
         "/** other wording */\nexport type A = { /** field doc, edited */ a: string };\n",
@@ -126,7 +137,9 @@ fn make_project(rng: &mut Rng) -> Project {
         "export type A = { q: Undeclared };\n",
         "import { NotThere } from \"./c\";\nexport type A = { q: NotThere };\n",
         "export type NotA = 1;\n",
+        "type A = { a: string };\nexport type StillUsesIt = A;\n",
     ];
+    let b_unresolvable = vec!["export type NotB = 1;\n", "type B = { b: boolean };\nexport type Other = B;\n"];
     let unparsable = vec!["export type A = {{{\n", "import { from \"./c\";\n", "export type = ;\n"];
     let b_valid = vec![
         "export type B = { b: boolean };\n",
@@ -155,7 +168,8 @@ fn make_project(rng: &mut Rng) -> Project {
     let none: Vec<&'static str> = vec![];
     files.push(("entry.ts".to_string(), mk(&entry_valid, &none, &unparsable)));
     files.push(("a.ts".to_string(), mk(&a_valid, &a_unresolvable, &unparsable)));
-    files.push(("b.ts".to_string(), mk(&b_valid, &none, &unparsable)));
+    files.push(("b.ts".to_string(), mk(&b_valid, &b_unresolvable, &unparsable)));
+    files.push(("all.ts".to_string(), mk(&all_valid, &none, &none)));
     let c_name = if rng.chance(1, 2) { "c.ts" } else { "lib/c.ts" };
     files.push((c_name.to_string(), mk(&c_valid, &none, &unparsable)));
     if rng.chance(1, 3) {
